@@ -207,13 +207,47 @@ func GoFunc(fn func()) {
 	s.Go("go", fn)
 }
 
-// SetFinalizer replaces runtime.SetFinalizer in instrumented code: finalizers are not explored
-// by the simulation (GC is off during a run), so inside a run none is registered.
+// SetFinalizer replaces runtime.SetFinalizer in instrumented code. The collector does not run during
+// a simulation, so inside a run the finalizer is only recorded; an engine that knows an object to be
+// unreachable (a secret whose creation failed and was never handed out) can run it with RunFinalizers.
 func SetFinalizer(obj any, finalizer any) {
-	if current.Load() != nil {
+	s := current.Load()
+	if s == nil {
+		runtime.SetFinalizer(obj, finalizer)
 		return
 	}
-	runtime.SetFinalizer(obj, finalizer)
+	if finalizer == nil {
+		for i := range s.finalizers {
+			if s.finalizers[i].obj == obj {
+				s.finalizers[i].fn = nil
+			}
+		}
+		return
+	}
+	s.finalizers = append(s.finalizers, finalizerRec{obj: obj, fn: finalizer})
+}
+
+type finalizerRec struct {
+	obj, fn any
+}
+
+// Finalizers is the number of finalizers registered so far in this run.
+func (s *Sim) Finalizers() int { return len(s.finalizers) }
+
+// RunFinalizers runs (once) the finalizers registered with indices [from, to): the harness vouches
+// that their objects are unreachable.
+func (s *Sim) RunFinalizers(from, to int) int {
+	n := 0
+	for i := from; i < to && i < len(s.finalizers); i++ {
+		f := s.finalizers[i]
+		if f.fn == nil {
+			continue
+		}
+		s.finalizers[i].fn = nil
+		reflect.ValueOf(f.fn).Call([]reflect.Value{reflect.ValueOf(f.obj)})
+		n++
+	}
+	return n
 }
 
 // ChanLen is `len(ch)`.
